@@ -350,6 +350,11 @@ def bfs(ctx, depth):
     states = {root: [[], None]}
     frontier = [[]]
     for level in range(1, depth + 1):
+        if not frontier:
+            # no state first reached at the previous level: the observed state space is complete, every longer history ends in a
+            # state whose every continuation has been run
+            ctx.extra["bfs_state_space_complete_at_level"] = level - 1
+            break
         cases = [{"ops": h + [op]} for h in frontier for op in OPS]
         ctx.enumerate(ctx.p_bfs, cases, batch=100, name="bfs level %d (histories of length %d from every distinct state of level %d)" % (
             level, level, level - 1), exhaustive=True)
@@ -368,12 +373,14 @@ def bfs(ctx, depth):
         ctx.log("bfs level %d: %d histories, %d new states (total %d)" % (level, len(cases), len(nxt), len(states)))
         ctx.extra["bfs_states_level_%d" % level] = len(nxt)
         frontier = nxt
+    if not frontier and "bfs_state_space_complete_at_level" not in ctx.extra:
+        ctx.extra["bfs_state_space_complete_at_level"] = depth
     ctx.extra["bfs_states"] = len(states)
     return states
 
 
 def run(ctx):
-    depth = ctx.scale(6, 8)      # histories of length <= depth; the statement asks for 6
+    depth = ctx.scale(6, 12)     # histories of length <= depth; the statement asks for 6
     if ctx.w == 0:
         saved_W, ctx.W = ctx.W, 1
         try:
